@@ -629,4 +629,26 @@ theorem C18_takeover_breaks_registration :
        ∃ s4, step s3 (.unavail 0) = some s4 ∧ s4.joined 0 = true ∧ s4.joined 1 = false) := by
   simp [step, init, upd]
 
+/-! ### a presence whose muc#user payload stands twice (round F)
+
+The multiplexer runs the handler once per child it is registered for, each time with the whole
+presence: such a presence is two consecutive `avail` / `unavail` steps.  The bookkeeping is the same
+as for one (the second run is an ordinary occupant presence / finds nothing). -/
+
+theorem C18_unavailable_twice {s s1 s2 : St} {a : Nat} (h1 : step s (.unavail a) = some s1)
+    (h2 : step s1 (.unavail a) = some s2) (c x : Nat) :
+    s2.joined c = s1.joined c ∧ s2.managed x = s1.managed x ∧ s2.depart c = s1.depart c ∧
+    s2.jpc c = s1.jpc c ∧ s2.cur c = s1.cur c ∧ s2.memberX c = s1.memberX c := by
+  simp only [step] at h1
+  split at h1 <;> (try split at h1) <;> simp at h1 <;> subst h1 <;> simp only [step] at h2 <;>
+    (split at h2 <;> (try split at h2) <;> simp at h2 <;> subst h2 <;> (try simp only [upd] at *) <;> grind [upd])
+
+theorem C18_available_twice {s s1 s2 : St} {a : Nat} (h1 : step s (.avail a) = some s1)
+    (h2 : step s1 (.avail a) = some s2) (c x : Nat) :
+    s2.joined c = s1.joined c ∧ s2.managed x = s1.managed x ∧ s2.cur c = s1.cur c ∧ s2.jpc c = s1.jpc c ∧
+    s2.lastJoin c = s1.lastJoin c ∧ s2.depart c = s1.depart c ∧ s2.memberX c = s1.memberX c := by
+  simp only [step] at h1
+  split at h1 <;> (try split at h1) <;> simp at h1 <;> subst h1 <;> simp only [step] at h2 <;>
+    (split at h2 <;> (try split at h2) <;> simp at h2 <;> subst h2 <;> (try simp only [upd] at *) <;> grind [upd])
+
 end XmppModel.Props.C18
